@@ -350,6 +350,12 @@ pub fn record(out_path: &str, count: u64) {
     for pad in [0usize, 1, 2, 3] {
         cx.big_self_run(pad);
     }
+    // collections of 32 768 .. 49 151 small integers: as MessagePack every byte is below 0x80 except the
+    // high byte of the 16-bit count, which is a UTF-8 continuation byte - the whole output is valid UTF-8
+    for n in [32768usize, 40000, 49151] {
+        let arr = format!("[{}]", (0..n).map(|i| (i % 100).to_string()).collect::<Vec<_>>().join(","));
+        cx.big_self_src(&arr, &format!("{n}-small-ints"), &format!("smallints/{n}"));
+    }
     // TOML documents around the 1 MiB mark and just below the 2 MiB look-ahead of reader detection
     for size in [1_048_575usize, 1_048_576, 1_500_000, 2_097_151, 2_097_152, 3_000_000] {
         cx.big_toml(size);
